@@ -321,10 +321,15 @@ class Runtime:
                 self.sched.spawn(op["f"], copy_ctx=(op["a"] == 1))
                 self.emit("spawn", op["f"], 0, op["a"])
 
-    def resolve(self, f: int, o: int) -> Any:
+    def resolve(self, f: int, o: int, kw: int = 0) -> Any:
+        """The callable to apply to the argument; kw = 1: the argument is passed by keyword, kw = 2: a method is
+        called through its class with `self` passed by keyword as well."""
         fn = self.prog["fn"][f - 1]
         kind = fn["kind"]
         if kind == "func":
+            if kw:
+                plain = self.fn_callable[f]
+                return lambda x: plain(x=x)
             return self.fn_callable[f]
         if kind == "init" and o in self.objs:
             # super().__init__(...) from a derived constructor: the base constructor on the same instance
@@ -363,6 +368,13 @@ class Runtime:
             return getattr(self.fn_class[f], self.fn_name[f])
         inst = self.objs[o]
         name = self.fn_name[f]
+        if kind in ("method", "protected", "private") and kw == 2:
+            # call through the class with `self` passed by keyword
+            unbound = getattr(type(inst), name)
+            return lambda x: unbound(self=inst, x=x)
+        if kind in ("method", "protected", "private") and kw == 1:
+            bound = getattr(inst, name)
+            return lambda x: bound(x=x)
         if kind in ("method", "protected", "private"):
             return getattr(inst, name)
         if kind == "dunder":
@@ -395,7 +407,7 @@ class Runtime:
         f, o, a = op["f"], op["o"], op["a"]
         self.emit("call", f, o, a)
         try:
-            callee = self.resolve(f, o)
+            callee = self.resolve(f, o, op.get("kw", 0))
             if self.prog["fn"][f - 1]["async"]:
                 result = self.sched.run_coro_inline(callee(self.arg(a)))
             else:
@@ -414,7 +426,7 @@ class Runtime:
         f, o, a = op["f"], op["o"], op["a"]
         self.emit("call", f, o, a)
         try:
-            callee = self.resolve(f, o)
+            callee = self.resolve(f, o, op.get("kw", 0))
             if self.prog["fn"][f - 1]["async"]:
                 result = await callee(self.arg(a))
             else:
